@@ -165,6 +165,86 @@ TEXT_PARSERS = ("np.genfromtxt", "numpy.genfromtxt", "np.loadtxt", "numpy.loadtx
                 "json.loads", "sym.sympify", "sympy.sympify", "sympify", "sym.parse_expr", "sympy.parse_expr", "parse_expr", "sym.S", "sympy.S", "shlex.split", "csv.reader", "tokenize.generate_tokens")
 
 
+def hazard_rule3(rep, prop):
+    """a Python-language trap: a str is an Iterable (of its characters)"""
+    R = "HAZ.3"
+    rep.rule(R, "a branch taken for every `Iterable` value (collections.abc / typing) that takes the value apart is not reached by a string: a str is an Iterable of its "
+                "characters, so names and string arguments (the p-array names of a tdm program among them) would be rebuilt from pieces; an earlier test must divert str", floor=0)
+    ix = common.index(rep)
+    reach = reachable(ix, ENTRIES[prop])
+    for q in sorted(reach):
+        f = ix.funcs[q]
+        tree = getattr(f, "orig", None) or f.node
+
+        def is_iter_test(t):
+            """-> variable name if t is isinstance(<name>, Iterable-like) (alone or as a conjunct)"""
+            for c in ([t] + (list(t.values) if isinstance(t, ast.BoolOp) and isinstance(t.op, ast.And) else [])):
+                if isinstance(c, ast.Call) and u(c.func) == "isinstance" and len(c.args) == 2 and isinstance(c.args[0], ast.Name):
+                    cls = c.args[1].elts if isinstance(c.args[1], ast.Tuple) else [c.args[1]]
+                    if any(u(k).split(".")[-1] in ("Iterable", "Sequence", "Collection", "Container", "Sized", "Reversible") for k in cls) and not any(u(k) in ("str", "bytes") for k in cls):
+                        return c.args[0].id
+            return None
+
+        def str_test(t, x):
+            for c in ast.walk(t):
+                if isinstance(c, ast.Call) and u(c.func) == "isinstance" and len(c.args) == 2 and u(c.args[0]) == x:
+                    cls = c.args[1].elts if isinstance(c.args[1], ast.Tuple) else [c.args[1]]
+                    if any(u(k) in ("str", "(str, bytes)") for k in cls):
+                        return True
+            return False
+
+        def takes_apart(body, x):
+            for s_ in body:
+                for n in ast.walk(s_):
+                    if isinstance(n, (ast.For, ast.comprehension)) and isinstance(n.iter, ast.Name) and n.iter.id == x:
+                        return True
+                    if isinstance(n, ast.Call) and u(n.func) in ("list", "tuple", "set", "sorted", "enumerate", "iter", "map", "zip") and any(isinstance(a, ast.Name) and a.id == x for a in n.args):
+                        return True
+            return False
+
+        # values the caller passes to a template call (**kwargs) are numbers or arrays by the property's own quantifier: a test on them is not
+        # a test on program content
+        kwp = tree.args.kwarg.arg if getattr(tree, "args", None) is not None and tree.args.kwarg else None
+        caller_values = set()
+        if kwp:
+            for n in ast.walk(tree):
+                if isinstance(n, (ast.For, ast.comprehension)) and u(n.iter) in ("%s.items()" % kwp, "%s.values()" % kwp):
+                    caller_values |= {x_.id for x_ in ast.walk(n.target) if isinstance(x_, ast.Name)}
+
+        def scan(stmts, diverted):
+            div = set(diverted) | caller_values
+            for s_ in stmts:
+                if isinstance(s_, ast.If):
+                    # walk the elif ladder
+                    cur, local = s_, set(div)
+                    while True:
+                        x = is_iter_test(cur.test)
+                        if x and x not in local and not str_test(cur.test, x) and takes_apart(cur.body, x):
+                            rep.bad(R, ix.site(f, cur), "`%s`: a string does not reach the branch for iterable values" % " ".join(u(cur.test).split())[:70],
+                                    "no earlier test diverts str, and the branch takes `%s` apart: a string such as 'p0' is rebuilt from its characters "
+                                    "(type(value)(<generator>) of a str is the text '<generator object ...>')" % x, key="%s|iterable|%s" % (q, x))
+                        for w in ast.walk(cur.test):
+                            if isinstance(w, ast.Call) and u(w.func) == "isinstance" and len(w.args) == 2 and isinstance(w.args[0], ast.Name) and str_test(cur.test, w.args[0].id):
+                                local.add(w.args[0].id)
+                                from ..py import exh as _exh
+                                if _exh.terminates(cur.body) and cur is s_:
+                                    div.add(w.args[0].id)
+                        scan(cur.body, local)
+                        if len(cur.orelse) == 1 and isinstance(cur.orelse[0], ast.If):
+                            cur = cur.orelse[0]
+                        else:
+                            scan(cur.orelse, local)
+                            break
+                else:
+                    for fld in ("body", "orelse", "finalbody"):
+                        b = getattr(s_, fld, None)
+                        if isinstance(b, list) and b and isinstance(b[0], ast.stmt) and not isinstance(s_, (ast.FunctionDef, ast.ClassDef)):
+                            scan(b, div)
+        scan(tree.body, set())
+    if not any(o.rule == R for o in rep.obs):
+        rep.ok(R, "-", "no branch for Iterable values is reachable by a string in the %d reachable functions" % len(reach))
+
+
 def hazard_rule2(rep, prop):
     """further library hazards (library model): floating-point error state, second parsers of script text, float conversion of unbounded ints"""
     R = "HAZ.2"
@@ -235,3 +315,4 @@ def run(rep, prop):
     common.guarded(rep, "MEMO.1", memo_rule, rep, prop)
     common.guarded(rep, "HAZ.1", hazard_rule, rep, prop)
     common.guarded(rep, "HAZ.2", hazard_rule2, rep, prop)
+    common.guarded(rep, "HAZ.3", hazard_rule3, rep, prop)
